@@ -228,8 +228,17 @@ func (s *String) Compare(other Object) (int, error) {
 }
 
 func (s *String) Equals(other Object) Object {
-	if other.Type() == STRING && s.value == other.(*String).value {
-		return True
+	switch other := other.(type) {
+	case *String:
+		if s.value == other.value {
+			return True
+		}
+	case *ByteSlice:
+		// byte_slice == string compares the bytes (ByteSlice.Equals); the
+		// comparison must give the same answer with the operands swapped
+		if s.value == string(other.value) {
+			return True
+		}
 	}
 	return False
 }
